@@ -61,7 +61,7 @@ struct AutoWorld : World {
     void gen(const std::string &, Rng &kr, Rng &pr, Knobs &k, Plan &p) override {
         k.assign(K_N, 0); k[K_SLOTS] = 2 + kr.below(5); k[K_PER] = 1 + kr.below(3); k[K_FILL] = kr.pick(std::vector<int64_t>{0xbe, 0x00, 0xff, 0x01});
         int ns = (int)k[K_SLOTS], per = (int)k[K_PER];
-        int n = 1 + (int)pr.below(40);
+        int n = 1 + (int)pr.below(g_tier ? 100 : 40);
         double w_bind = 0.15 + 0.2 * pr.unit(), w_clear = 0.05 + 0.1 * pr.unit(), w_map = 0.1 * pr.unit(), w_host = 0.1 + 0.2 * pr.unit(), w_midi = 0.2 + 0.3 * pr.unit(), w_nrpn = pr.chance(0.5) ? 0.15 : 0.0;
         double tot = w_bind + w_clear + w_map + w_host + w_midi + w_nrpn;
         int ncc = 2 + (int)pr.below(4); int nrpn_next = 0; int nrpn_par = (int)pr.below(3);
